@@ -11,7 +11,9 @@ ID = "C02"
 RULE_POSITION = (
     " Position in the token stream: a fixed unit (grouping parentheses, casts, sizeof in both forms, a compound literal, parenthesised "
     "callee and declarators, typedef use) is parsed behind N empty declarations for every N that moves one of its tokens onto a "
-    "power-of-two or round decimal token index up to 131 072 (quick) / 262 144 (thorough); the tree must equal the unit's own tree."
+    "power-of-two or round decimal token index up to 131 072 (quick) / 262 144 (thorough); the tree must equal the unit's own tree; "
+    "and the unit repeated 120 (quick) / 800 (thorough) times behind j empty declarations for every j below its length, so that each of its tokens "
+    "stands on every token index up to 11 000 / 76 000."
 )
 RULE = (
     "Expression trees of an independent model (18 binary, 11 assignment operators, ?:, comma, 9 prefix, 2 postfix operators, "
@@ -218,6 +220,36 @@ def position_shard(arg):
     return st
 
 
+def sliding_shard(arg):
+    """The unit repeated R times behind j empty declarations, for every j below
+    the unit's length: each of its tokens stands on EVERY token index up to
+    R x length in one of these inputs - whatever happens every so many tokens
+    (a buffer trimmed, a counter wrapped) meets every construct of the unit."""
+    from pycparser import c_parser
+
+    from .. import reflex
+    from ..astdump import dump, first_difference
+
+    j, reps = arg
+    st = Stats()
+    ref = dump(c_parser.CParser().parse(POSITION_UNIT, "f.c"))[1][1]
+    src = ";" * j + "\n" + POSITION_UNIT * reps
+    st.evaluations += 1
+    out = parse_outcome(src, "f.c", ("f.c",))
+    case = ("sliding", j, reps)
+    if out[0] != "ast":
+        st.failures.append(dict(subcheck="expr", case=case, text="';' x %d + unit x %d" % (j, reps), detail="%d copies of the unit behind %d empty declarations are rejected: %r" % (reps, j, out[1:]), sig="position-rejected"))
+        return st
+    got = dump(out[1])[1][1]
+    n = len(ref)
+    for k in range(reps):
+        if got[k * n : (k + 1) * n] != ref:
+            st.failures.append(dict(subcheck="expr", case=case, text="';' x %d + unit x %d" % (j, reps), detail="copy %d of the unit (behind %d empty declarations) has a different tree at %s" % (k, j, first_difference(ref, got[k * n : (k + 1) * n])), sig="position-differs"))
+            break
+    st.nontrivial += 1
+    return st
+
+
 def run(ctx):
     # exhaustive part
     jobs = [(1, k[0], "full", False) for k in KINDS] + [(2, k[0], "full", False) for k in KINDS]
@@ -235,12 +267,21 @@ def run(ctx):
     if not ctx.quick:
         boundaries = [262144, 200000, 3 * 65536] + boundaries
     ctx.map(position_shard, boundaries)
+    from .. import reflex as _reflex
+
+    ulen = len(_reflex.pp_tokens(POSITION_UNIT))
+    ctx.map(sliding_shard, [(j, ctx.pick(120, 800)) for j in range(ulen)], chunksize=4)
     bounds += "; a fixed unit behind N empty declarations for every N that moves one of its tokens onto token index %s" % sorted(boundaries)
     ctx.exhaustive = True
     ctx.extra["exhaustive_bounds"] = bounds
 
 
 def replay(subcheck, case):
+    if case and case[0] == "sliding":
+        r = sliding_shard((case[1], case[2]))
+        if r.failures:
+            raise CheckFailure(**r.failures[0])
+        return
     if case and case[0] == "position":
         from pycparser import c_parser
 
